@@ -16,7 +16,7 @@ def crc16_x25(data):
 class B:
     """byte builder that remembers which offsets are content"""
     def __init__(self):
-        self.b = bytearray(); self.content = []; self.fix = []; self.desc = []
+        self.b = bytearray(); self.content = []; self.fix = []; self.desc = []; self.trace = []
 
     def raw(self, bs, content=False):
         if content:
@@ -50,36 +50,44 @@ class B:
         self.raw(bytes(out))
 
     def octets(self, data, form='min'):
-        self.tl(0, len(data), form); self.raw(data, content=True)
+        self.tl(0, len(data), form); off = len(self.b); self.raw(data, content=True)
+        return [0x01, off & 0xff, off >> 8, len(data) & 0xff, len(data) >> 8]
 
     def uint(self, val, width, form='min'):
-        self.tl(6, width, form); self.raw(val.to_bytes(width, 'big'), content=True)
+        self.tl(6, width, form); off = len(self.b); self.raw(val.to_bytes(width, 'big'), content=True)
+        return [0x03, off & 0xff, off >> 8, width]
 
     def sint(self, val, width, form='min'):
-        self.tl(5, width, form); self.raw((val & ((1 << (8 * width)) - 1)).to_bytes(width, 'big'), content=True)
+        self.tl(5, width, form); off = len(self.b); self.raw((val & ((1 << (8 * width)) - 1)).to_bytes(width, 'big'), content=True)
+        return [0x04, off & 0xff, off >> 8, width]
 
     def boolean(self, v):
-        self.tl(4, 1); self.raw(bytes([1 if v else 0]), content=True)
+        self.tl(4, 1); off = len(self.b); self.raw(bytes([1 if v else 0]), content=True)
+        return [0x06, off & 0xff, off >> 8]
 
     def none(self):
         self.raw(b'\x01')
+        return [0x02]
 
     def lst(self, n, form='min'):
         self.tl(7, n, form)
 
     def time(self, sec, kind='list', width=4):
         if kind == 'bare':
-            self.tl(6, 4); self.raw(sec.to_bytes(4, 'big'), content=True)
-        else:
-            self.lst(2); self.tl(6, 1); self.raw(b'\x01'); self.uint(sec, width)
+            self.tl(6, 4); off = len(self.b); self.raw(sec.to_bytes(4, 'big'), content=True)
+            return [0x05, off & 0xff, off >> 8, 4]
+        self.lst(2); self.tl(6, 1); self.raw(b'\x01')
+        t = self.uint(sec, width)
+        return [0x05] + t[1:]
 
     # ---- messages
     def begin_msg(self, tid, group=0, abort=0, form='min'):
         self._start = len(self.b)
         self.lst(6, form)
-        self.octets(tid)
-        self.uint(group, 1)
-        self.uint(abort, 1)
+        self.trace += [0xA0]
+        self.trace += self.octets(tid)
+        self.trace += self.uint(group, 1)
+        self.trace += self.uint(abort, 1)
 
     def end_msg(self, crc_width=2):
         at = len(self.b)
@@ -95,26 +103,27 @@ class B:
 
 
 def opt(b, present, f):
-    if present: f()
-    else: b.none()
+    if present: return f()
+    return b.none()
 
 
 def opt_octets(b, v):
     """optional octet string; a present-but-empty one needs a non-minimal TL field because `01` means absent"""
-    if v is None: b.none()
-    elif len(v) == 0: b.octets(v, 'pad')
-    else: b.octets(v)
+    if v is None: return b.none()
+    if len(v) == 0: return b.octets(v, 'pad')
+    return b.octets(v)
 
 
 def msg_open(b, tid=b'\x01\x02', codepage=None, client=None, req=b'\xaa\xbb', server=b'\x0a\x01\x02\x03', ref_time=None, version=None, tform='min'):
     b.begin_msg(tid)
     b.body(0x0101)
     b.lst(6)
-    opt_octets(b, codepage)
-    opt_octets(b, client)
-    b.octets(req); b.octets(server, tform)
-    opt(b, ref_time is not None, lambda: b.time(*ref_time))
-    opt(b, version is not None, lambda: b.uint(version, 1))
+    b.trace += [0xB1]
+    b.trace += opt_octets(b, codepage)
+    b.trace += opt_octets(b, client)
+    b.trace += b.octets(req); b.trace += b.octets(server, tform)
+    b.trace += opt(b, ref_time is not None, lambda: b.time(*ref_time))
+    b.trace += opt(b, version is not None, lambda: b.uint(version, 1))
     b.end_msg()
 
 
@@ -122,39 +131,43 @@ def msg_close(b, tid=b'\x09', sig=None):
     b.begin_msg(tid)
     b.body(0x0201)
     b.lst(1)
-    opt_octets(b, sig)
+    b.trace += [0xB2]
+    b.trace += opt_octets(b, sig)
     b.end_msg()
 
 
 def entry(b, name=b'\x01\x00\x01\x08\x00\xff', status=None, val_time=None, unit=None, scaler=None, value=('u', 5, 1), sig=None):
     b.lst(7)
-    b.octets(name)
-    opt(b, status is not None, lambda: b.uint(status[0], status[1]))
-    opt(b, val_time is not None, lambda: b.time(*val_time))
-    opt(b, unit is not None, lambda: b.uint(unit, 1))
-    opt(b, scaler is not None, lambda: b.sint(scaler, 1))
+    b.trace += [0xC0]
+    b.trace += b.octets(name)
+    b.trace += opt(b, status is not None, lambda: b.uint(status[0], status[1]))
+    b.trace += opt(b, val_time is not None, lambda: b.time(*val_time))
+    b.trace += opt(b, unit is not None, lambda: b.uint(unit, 1))
+    b.trace += opt(b, scaler is not None, lambda: b.sint(scaler, 1))
     k = value[0]
-    if k == 'u': b.uint(value[1], value[2])
-    elif k == 'i': b.sint(value[1], value[2])
-    elif k == 'b': b.boolean(value[1])
-    elif k == 'o': b.octets(value[1], value[2] if len(value) > 2 else 'min')
+    if k == 'u': b.trace += [0x13] + b.uint(value[1], value[2])
+    elif k == 'i': b.trace += [0x12] + b.sint(value[1], value[2])
+    elif k == 'b': b.trace += [0x10] + b.boolean(value[1])
+    elif k == 'o': b.trace += [0x11] + b.octets(value[1], value[2] if len(value) > 2 else 'min')
     elif k == 't':
-        b.lst(2); b.tl(6, 1); b.raw(b'\x01'); b.time(*value[1:])
-    opt_octets(b, sig)
+        b.lst(2); b.tl(6, 1); b.raw(b'\x01'); b.trace += [0x14] + b.time(*value[1:])
+    b.trace += opt_octets(b, sig)
 
 
 def msg_getlist(b, entries, tid=b'\x05\x06\x07', client=None, server=b'\x0a\x01', name=None, sensor_time=None, sig=None, gw_time=None, lform='min'):
     b.begin_msg(tid)
     b.body(0x0701)
     b.lst(7)
-    opt_octets(b, client)
-    b.octets(server)
-    opt_octets(b, name)
-    opt(b, sensor_time is not None, lambda: b.time(*sensor_time))
+    b.trace += [0xB3]
+    b.trace += opt_octets(b, client)
+    b.trace += b.octets(server)
+    b.trace += opt_octets(b, name)
+    b.trace += opt(b, sensor_time is not None, lambda: b.time(*sensor_time))
     b.lst(len(entries), lform)
+    b.trace += [0x07, len(entries)]
     for e in entries: entry(b, **e)
-    opt_octets(b, sig)
-    opt(b, gw_time is not None, lambda: b.time(*gw_time))
+    b.trace += opt_octets(b, sig)
+    b.trace += opt(b, gw_time is not None, lambda: b.time(*gw_time))
     b.end_msg()
 
 
@@ -217,6 +230,16 @@ def transport_encode(p):
     c = crc16_x25(out)
     out += bytes([c & 0xff, c >> 8])
     return bytes(out)
+
+
+def header_with_trace(b):
+    """input prefix for drivers::parser::chk_gen_c03: [k][fixups][trace len u16][trace bytes]"""
+    h = [len(b.fix)]
+    for (start, at) in b.fix:
+        h += [start & 0xff, start >> 8, at & 0xff, at >> 8]
+    t = list(b.trace) + [0xFF]
+    h += [len(t) & 0xff, len(t) >> 8] + t
+    return h
 
 
 def header(b, mode=0, p0=0, p1=0, v0=0, v1=0):
